@@ -13,7 +13,8 @@ RULE = ("schedules = source x compile function (all 9 public functions) x option
         "flattenComponents, skip list, lib filters incl. dottedCircle / propagateAnchors / transformations, explicit filters, "
         "colour layers, MATH constants, variable features, debugFeatureFile, layerName) x 1-2 calls; sources = generated "
         "rich UFOs and 2-3 master families plus every UFO / designspace fixture of tests/data; a structural snapshot of "
-        "every layer, lib, info, kerning, groups, features and the designspace is taken at EVERY hook; non-trivial = the call "
+        "every layer, lib, info, kerning, groups, features and the designspace is taken at EVERY hook; every second family has "
+        "nested and mixed composites and lib-selected pre-filters (propagateAnchors, flattenComponents, decomposeTransformed); non-trivial = the call "
         "ran at least 5 pipeline stages; distinct by (source, function, options)")
 ASSUMPTIONS = ["the snapshot covers: every layer's glyphs (outline, components, anchors, width, height, code points, lib), "
                "layer libs, font lib, info attributes, kerning, groups, feature text, designspace axes/sources/rules/lib"]
@@ -111,6 +112,21 @@ def cases(tier, seed):
     n_fam = 10 if tier == "quick" else 100
     for k in range(n_fam):
         fam = gen.rich_family(rng, n_masters=rng.choice([2, 3]))
+        if k % 2 == 1:
+            # nested composites (a contour-less composite of a composite, a composite of a MIXED glyph) and filters selected
+            # through the lib of every master: pre-filters resolve nested bases through the on-the-fly interpolated layers
+            flt = rng.choice([[{"name": "propagateAnchors", "pre": True}], [{"name": "propagateAnchors", "pre": True}, {"name": "flattenComponents", "pre": True}],
+                              [{"name": "decomposeTransformedComponents", "pre": True}], [{"name": "propagateAnchors"}]])
+            for m in fam["masters"]:
+                g = m["ufo"]["glyphs"]
+                P = 1024
+                g["aacute.nest"] = {"cs": [], "comps": [{"b": "aacute", "m": [64, 0, 0, 64], "d": [10 * P, 0]}], "anchors": [], "w": g["aacute"]["w"], "h": 0, "u": []}
+                g["amixed"] = {"cs": [[[0, 0, "line"], [50 * P, 0, "line"], [50 * P, 50 * P, "line"]]],
+                               "comps": [{"b": "a", "m": [64, 0, 0, 64], "d": [60 * P, 0]}], "anchors": [], "w": 600 * P, "h": 0, "u": []}
+                g["amixed.nest"] = {"cs": [], "comps": [{"b": "amixed", "m": [64, 0, 0, 64], "d": [0, 20 * P]},
+                                                        {"b": "acutecomb", "m": [64, 0, 0, 64], "d": [250 * P, 0]}], "anchors": [], "w": 600 * P, "h": 0, "u": []}
+                m["ufo"]["order"] = list(m["ufo"]["order"]) + ["aacute.nest", "amixed", "amixed.nest"]
+                m["ufo"].setdefault("lib", {})["com.github.googlei18n.ufo2ft.filters"] = flt
         hist = []
         for _ in range(rng.choice([1, 2])):
             fn = rng.choice(DS_FNS + ["compileInterpolatableTTFs"])
